@@ -82,11 +82,26 @@ func c13Run(c *fw.Ctx, idx int, sc c13Scenario) {
 	if sc.cause == "keepalive" {
 		ka = 1
 	}
-	dying, err := host.MustConnect(kit.ConnectOpts{ClientID: fmt.Sprintf("dying-%d", idx), KeepAlive: ka, Clean: true, User: "tA",
-		Will: true, WillTopic: sc.willTopic, WillPayload: []byte(tag), WillQos: sc.willQos, WillRetain: sc.retain})
-	if err != nil {
-		c.Inconclusive(desc + ": connect: " + err.Error())
-		return
+	// gossip barrier: the dying session's node must know every watcher before the session can die
+	cl.StopPump()
+	cl.Quiesce()
+	cl.StartPump(3 * time.Millisecond)
+	dyingOpts := kit.ConnectOpts{ClientID: fmt.Sprintf("dying-%d", idx), KeepAlive: ka, Clean: true, User: "tA",
+		Will: true, WillTopic: sc.willTopic, WillPayload: []byte(tag), WillQos: sc.willQos, WillRetain: sc.retain}
+	var dying *kit.Client
+	var err error
+	if sc.cause == "close-before-connack" {
+		// the client sends CONNECT and goes away without reading the CONNACK; once every node lists the
+		// session (polled below) it was accepted, and it never sent DISCONNECT
+		dying = host.Dial(dyingOpts.ClientID)
+		dying.Send(kit.EncConnect(dyingOpts))
+		dying.Close()
+	} else {
+		dying, err = host.MustConnect(dyingOpts)
+		if err != nil {
+			c.Inconclusive(desc + ": connect: " + err.Error())
+			return
+		}
 	}
 	defer dying.Close()
 	pubNode := nodes[(sc.host+1)%sc.nNodes]
@@ -105,6 +120,8 @@ func c13Run(c *fw.Ctx, idx int, sc c13Scenario) {
 		survivors[i] = true
 	}
 	switch sc.cause {
+	case "close-before-connack":
+		// already gone
 	case "close":
 		dying.Close()
 	case "keepalive":
@@ -284,9 +301,9 @@ func c13ReconnectWindow(c *fw.Ctx, idx int) {
 }
 
 func runC13(c *fw.Ctx) {
-	c.Rule = "scenarios = termination cause in {connection closed, keep-alive expiry (1 s), second CONNECT, undecodable packet, failure of the hosting node, DISCONNECT} x will QoS 0/1/2 x retain x will topic x placement of the dying session over 1-3 nodes (tenant mount point through the user name); one watcher per node and per filter (exact topic, '+' and '#' variants, one non-matching), QoS 0 or 1, all in the dying session's mount point. Plus: connection loss inside the window of the client's own re-CONNECT (old record removed, new one not yet created; hook H2 gate). After the cause (and the code's 3 s delay for node failure) a sentinel barrier; oracle: every matching watcher on a surviving node received the will exactly once (QoS 1 retransmissions with the same identifier discounted) on the topic the client specified; nobody after DISCONNECT; non-matching watchers nothing. distinct = scenario parameters; non-trivial = all"
+	c.Rule = "scenarios = termination cause in {connection closed, connection closed right after CONNECT without reading the CONNACK, keep-alive expiry (1 s), second CONNECT, undecodable packet, failure of the hosting node, DISCONNECT} x will QoS 0/1/2 x retain x will topic x placement of the dying session over 1-3 nodes (tenant mount point through the user name); one watcher per node and per filter (exact topic, '+' and '#' variants, one non-matching), QoS 0 or 1, all in the dying session's mount point. Plus: connection loss inside the window of the client's own re-CONNECT (old record removed, new one not yet created; hook H2 gate). After the cause (and the code's 3 s delay for node failure) a sentinel barrier; oracle: every matching watcher on a surviving node received the will exactly once (QoS 1 retransmissions with the same identifier discounted) on the topic the client specified; nobody after DISCONNECT; non-matching watchers nothing. distinct = scenario parameters; non-trivial = all"
 	c.Assume("a stray will published after the barrier would be missed (20 publish workers are unordered); only earlier ones are seen")
-	causes := []string{"close", "keepalive", "second-connect", "garbage", "node-failure", "disconnect"}
+	causes := []string{"close", "keepalive", "second-connect", "garbage", "node-failure", "disconnect", "close-before-connack"}
 	scen := []c13Scenario{}
 	rg := c.SubRng("c13", 0)
 	topics := []string{"w/a/x", "w/b", "w/a/x/y"}
